@@ -1570,6 +1570,14 @@ func (f *e1func) transfer(st *fstate, n ast.Node, sites *[]*e1site) []*fstate {
 			if ce, ok := unparen(r).(*ast.CallExpr); ok {
 				if tv, isT := f.info.Types[ce.Fun]; !(isT && tv.IsType()) {
 					add = append(add, fact("called", rhs[i]))
+					// an element appended through local temporaries is the element: record the event also with the
+					// temporaries spelled out (valid here, where the definitions are current; only for the accumulating
+					// builtin, so that the number of event facts stays small)
+					if rhs[i].K == "call" && rhs[i].S == "append" {
+						for _, x := range f.expandDefs(st, rhs[i]) {
+							add = append(add, fact("called", x))
+						}
+					}
 				}
 			}
 		}
